@@ -36,7 +36,7 @@ def check(run, tier, seed, replay=None):
     else:
         kern = depgen.kernel(seed, tier)
         nk = len(kern)
-        pairs = depgen.corpus() + kern + depgen.histories(seed, 150 if tier == "quick" else 2000, salt="C08")
+        pairs = depgen.corpus() + kern + depgen.histories(seed, 150 if tier == "quick" else 1000, salt="C08")
     res = dl.run_cases(run, pairs, "judge08", 7, "From PKOCorr Require Import C08Corr.", shard=200)
     for ctx, sc, obs, r in res:
         if r is None:
